@@ -50,6 +50,17 @@ func tieTensor(r *gen.R, dt ref.DType, shape []int) *ref.T {
 		}
 		t.Bits[i] = ref.EncF(dt, v)
 	}
+	if (dt == ref.I64 || dt == ref.U64) && r.Chance(0.25) {
+		// 64-bit values beyond 2^53 that differ only in their low bits (distinct as integers,
+		// equal after a conversion to float64)
+		base := []uint64{1 << 60, 1<<63 - 8, 1<<53 + 1, 1 << 62}[r.Intn(4)]
+		for i := range t.Bits {
+			t.Bits[i] = base + uint64(r.Intn(5))
+			if dt == ref.I64 && r.Chance(0.2) {
+				t.Bits[i] = uint64(-int64(t.Bits[i]))
+			}
+		}
+	}
 	return t
 }
 
@@ -131,6 +142,7 @@ func genReduce(r *gen.R, op string, validOnly bool) (mon.OpReq, Expect, bool) {
 	rank := len(shape)
 	req := mon.OpReq{Op: op, Inputs: []*ref.T{x}}
 	var axes []int64
+	repeated := false
 	axesGiven := r.Chance(0.75)
 	if axesGiven {
 		for _, a := range r.Perm(rank) {
@@ -143,6 +155,19 @@ func genReduce(r *gen.R, op string, validOnly bool) (mon.OpReq, Expect, bool) {
 			if r.Chance(0.15) {
 				axes[len(axes)-1] = extremeAxis(r)
 			}
+		}
+		if !validOnly && len(axes) > 0 && r.Chance(0.06) {
+			a := axes[r.Intn(len(axes))]
+			if a < 0 {
+				a += int64(rank)
+			} else {
+				a -= int64(rank)
+			}
+			if r.Chance(0.3) {
+				a = axes[0]
+			}
+			axes = append(axes, a)
+			repeated = true
 		}
 		req.Attrs = append(req.Attrs, mon.AttrInts("axes", axes))
 	}
@@ -157,6 +182,30 @@ func genReduce(r *gen.R, op string, validOnly bool) (mon.OpReq, Expect, bool) {
 	var ax []int64
 	if axesGiven {
 		ax = axes
+	}
+	if repeated { // the reference treats the list as a set
+		seen := map[int64]bool{}
+		var set []int64
+		inRange := true
+		for _, a := range ax {
+			if a < int64(-rank) || a >= int64(rank) {
+				inRange = false
+			}
+			n := a
+			if n < 0 {
+				n += int64(rank)
+			}
+			if !seen[n] {
+				seen[n] = true
+				set = append(set, a)
+			}
+		}
+		if inRange {
+			want, err := ref.ReduceMaxMin(x, set, keep, op == "ReduceMax")
+			if err == nil {
+				return req, Expect{Kind: MayRefuse, Want: Exact(want), Mode: CmpIEEE, Why: "an axis is named twice: refused, or reduced as a set"}, true
+			}
+		}
 	}
 	want, err := ref.ReduceMaxMin(x, ax, keep, op == "ReduceMax")
 	if err != nil {
